@@ -136,11 +136,10 @@ class Excel:
     @classmethod
     def _get_suspicious_constructions(cls, value):
         value = str(value)
-        suspicious_constructions = re.findall(r'[a-zA-Z_\d]+\(.*?\)', value)
-        if suspicious_constructions:
-            return [i for i in suspicious_constructions if not re.findall(r'[A-Z]+\(.*?\)', i)]
-
-        return []
+        # call syntax: an identifier immediately followed by a parenthesised argument list (which may span lines)
+        suspicious_constructions = re.findall(r'[a-zA-Z_\d]+\(.*?\)', value, flags=re.DOTALL)
+        # Excel function calls are exempt: the WHOLE identifier is upper-case (aB(2) is not an Excel function)
+        return [i for i in suspicious_constructions if not re.match(r'[A-Z][A-Z\d_]*\(', i)]
 
     @classmethod
     def parse(cls, path: str):
